@@ -143,7 +143,7 @@ Variable upper : Z -> list Z.
 Variable lower : list Z -> list Z.
 
 Notation ref_key := (ref_key (Width.cw wcw) upper lower).
-Notation bkeypress := (bkeypress wcw).
+Notation bkeypress := (bkeypress wcw MUtf8).
 
 (* insertion of encoded characters *)
 Lemma b_insert sb ss cs :
@@ -331,7 +331,7 @@ Definition cpos_bnd (d : list Z) (c : cpos) : Prop :=
 
 Lemma btpos_bnd d a b col p :
   Forall cp d -> 0 <= a <= b -> b <= zlen d ->
-  btpos wcw (encs d) (boff d a) (boff d b) col = Ok p -> bnd d p.
+  btpos wcw MUtf8 (encs d) (boff d a) (boff d b) col = Ok p -> bnd d p.
 Proof.
   intros Hc H1 H2 H. unfold btpos in H.
   destruct (calc_text_pos_utf8_agrees wcw d a b col Hc H1 H2) as (q & c & _ & Hq & E).
@@ -339,13 +339,13 @@ Proof.
 Qed.
 
 Lemma bclp_finish_bnd d c p :
-  Forall cp d -> cpos_bnd d c -> bclp_finish wcw (encs d) c = Ok (Some p) -> bnd d p.
+  Forall cp d -> cpos_bnd d c -> bclp_finish wcw MUtf8 (encs d) c = Ok (Some p) -> bnd d p.
 Proof.
   intros Hc Hb H. destruct c as [|o|sc o e]; cbn [bclp_finish] in H.
   - discriminate.
   - inversion H; subst. exact Hb.
   - destruct Hb as (a & b & H1 & H2 & -> & ->).
-    destruct (btpos wcw (encs d) (boff d a) (boff d b) (sc - 1)) as [q|] eqn:E; [|discriminate].
+    destruct (btpos wcw MUtf8 (encs d) (boff d a) (boff d b) (sc - 1)) as [q|] eqn:E; [|discriminate].
     inversion H; subst. eapply btpos_bnd; eauto.
 Qed.
 
@@ -358,7 +358,7 @@ Qed.
 
 Lemma bclp_int_bnd d segs : forall pc csc c cur p,
   Forall cp d -> line_bnd d segs -> cpos_bnd d c ->
-  bclp_int wcw (encs d) segs pc csc c cur = Ok (Some p) -> bnd d p.
+  bclp_int wcw MUtf8 (encs d) segs pc csc c cur = Ok (Some p) -> bnd d p.
 Proof.
   induction segs as [|s r IH]; intros pc csc c cur p Hc Hl Hb H; cbn [bclp_int] in H.
   - eapply bclp_finish_bnd; eauto.
@@ -370,7 +370,7 @@ Proof.
       destruct brk; [eapply bclp_finish_bnd; eauto|eapply IH; eauto].
     + destruct ((cur <=? pc) && (pc <? cur + sc)).
       * destruct Hs as (a & b & H1 & H2 & -> & ->).
-        destruct (btpos wcw (encs d) (boff d a) (boff d b) (pc - cur)) as [q|] eqn:E; [|discriminate].
+        destruct (btpos wcw MUtf8 (encs d) (boff d a) (boff d b) (pc - cur)) as [q|] eqn:E; [|discriminate].
         inversion H; subst. eapply btpos_bnd; eauto.
       * assert (Ho: bnd d o).
         { destruct Hs as (a & b & H1 & H2 & -> & _). exists a. split; [lia|reflexivity]. }
@@ -406,7 +406,7 @@ Proof.
 Qed.
 
 Lemma bcalc_line_pos_bnd d segs pc p :
-  Forall cp d -> line_bnd d segs -> bcalc_line_pos wcw (encs d) segs pc = Ok (Some p) -> bnd d p.
+  Forall cp d -> line_bnd d segs -> bcalc_line_pos wcw MUtf8 (encs d) segs pc = Ok (Some p) -> bnd d p.
 Proof.
   intros Hc Hl H. destruct pc as [x| |]; cbn [bcalc_line_pos] in H.
   - eapply bclp_int_bnd; eauto. exact I.
@@ -417,7 +417,7 @@ Proof.
     destruct s as [sc|sc o|sc o e]; [discriminate| |].
     + inversion H; subst. exact Hs.
     + destruct Hs as (a & b & H1 & H2 & -> & ->).
-      destruct (btpos wcw (encs d) (boff d a) (boff d b) (sc - 1)) as [q|] eqn:Eq; [|discriminate].
+      destruct (btpos wcw MUtf8 (encs d) (boff d a) (boff d b) (sc - 1)) as [q|] eqn:Eq; [|discriminate].
       inversion H; subst. eapply btpos_bnd; eauto.
 Qed.
 
@@ -432,24 +432,24 @@ Lemma bnd_0 d : bnd d 0.
 Proof. exists 0. split; [pose proof (zlen_nonneg d); lia|reflexivity]. Qed.
 
 Lemma bcp_alt_bnd d lay pc : forall above below p,
-  Forall cp d -> lay_bnd d lay -> bcp_alt wcw (encs d) lay pc above below = Ok p -> bnd d p.
+  Forall cp d -> lay_bnd d lay -> bcp_alt wcw MUtf8 (encs d) lay pc above below = Ok p -> bnd d p.
 Proof.
   induction above as [|a ar IH]; intros below p Hc Hl H; cbn [bcp_alt] in H.
   - inversion H; subst. apply bnd_0.
   - destruct below as [|b br]; [inversion H; subst; apply bnd_0|].
-    destruct (bcalc_line_pos wcw (encs d) (nth (Z.to_nat a) lay []) pc) as [[q|]|] eqn:E1; try discriminate.
+    destruct (bcalc_line_pos wcw MUtf8 (encs d) (nth (Z.to_nat a) lay []) pc) as [[q|]|] eqn:E1; try discriminate.
     + inversion H; subst. eapply bcalc_line_pos_bnd; eauto. apply nth_line_bnd; exact Hl.
-    + destruct (bcalc_line_pos wcw (encs d) (nth (Z.to_nat b) lay []) pc) as [[q|]|] eqn:E2; try discriminate.
+    + destruct (bcalc_line_pos wcw MUtf8 (encs d) (nth (Z.to_nat b) lay []) pc) as [[q|]|] eqn:E2; try discriminate.
       * inversion H; subst. eapply bcalc_line_pos_bnd; eauto. apply nth_line_bnd; exact Hl.
       * eapply IH; eauto.
 Qed.
 
 Lemma bcalc_pos_bnd d lay pc row p :
-  Forall cp d -> lay_bnd d lay -> bcalc_pos wcw (encs d) lay pc row = Ok p -> bnd d p.
+  Forall cp d -> lay_bnd d lay -> bcalc_pos wcw MUtf8 (encs d) lay pc row = Ok p -> bnd d p.
 Proof.
   intros Hc Hl H. unfold bcalc_pos in H.
   destruct ((row <? 0) || (row >=? zlen lay)); [discriminate|].
-  destruct (bcalc_line_pos wcw (encs d) (nth (Z.to_nat row) lay []) pc) as [[q|]|] eqn:E1; try discriminate.
+  destruct (bcalc_line_pos wcw MUtf8 (encs d) (nth (Z.to_nat row) lay []) pc) as [[q|]|] eqn:E1; try discriminate.
   - inversion H; subst. eapply bcalc_line_pos_bnd; eauto. apply nth_line_bnd; exact Hl.
   - eapply bcp_alt_bnd; eauto.
 Qed.
@@ -471,11 +471,11 @@ Proof.
 Qed.
 
 Lemma bglt_bnd d s w lay trans :
-  lay_bnd d lay -> bget_line_translation wcw s w lay = Ok trans -> lay_bnd d trans.
+  lay_bnd d lay -> bget_line_translation wcw MUtf8 s w lay = Ok trans -> lay_bnd d trans.
 Proof.
   intros Hl H. unfold bget_line_translation in H.
   destruct (negb (shiftv s)); [inversion H; subst; exact Hl|].
-  destruct (bcalc_coords wcw (disp s) lay (pos s + zlen (caption s))) as [[x y]|]; [|discriminate].
+  destruct (bcalc_coords wcw MUtf8 (disp s) lay (pos s + zlen (caption s))) as [[x y]|]; [|discriminate].
   destruct (x <? 0).
   - inversion H; subst. apply replace_row_bnd; [exact Hl|]. apply shift_line_bnd, nth_line_bnd. exact Hl.
   - destruct (x >=? w); inversion H; subst; [|exact Hl].
@@ -526,17 +526,17 @@ Qed.
 (* move_cursor_to_coords keeps the offset on a boundary when the layout cuts at boundaries *)
 Lemma bmctc_OnB sb w lay x y :
   OnB sb -> (forall d, disp sb = encs d -> scalars d -> lay_bnd d lay) ->
-  OnB (fst (bmove_cursor_to_coords wcw sb w lay x y)) /\
-  same_frame sb (fst (bmove_cursor_to_coords wcw sb w lay x y)) /\
-  text (fst (bmove_cursor_to_coords wcw sb w lay x y)) = text sb.
+  OnB (fst (bmove_cursor_to_coords wcw MUtf8 sb w lay x y)) /\
+  same_frame sb (fst (bmove_cursor_to_coords wcw MUtf8 sb w lay x y)) /\
+  text (fst (bmove_cursor_to_coords wcw MUtf8 sb w lay x y)) = text sb.
 Proof.
   intros HB HL. pose proof HB as (c & t & k & Hc & Sc & Ht & St & Hk & Hp & Hm).
   assert (Same: same_frame sb sb) by (unfold same_frame; auto).
   unfold bmove_cursor_to_coords.
-  destruct (bget_line_translation wcw sb w lay) as [trans|] eqn:Et; [|cbn [fst]; auto].
-  destruct (bposition_coords wcw sb w lay 0) as [[tx ty]|]; [|cbn [fst]; auto].
+  destruct (bget_line_translation wcw MUtf8 sb w lay) as [trans|] eqn:Et; [|cbn [fst]; auto].
+  destruct (bposition_coords wcw MUtf8 sb w lay 0) as [[tx ty]|]; [|cbn [fst]; auto].
   destruct ((y <? ty) || (y >=? zlen trans)); [cbn [fst]; auto|].
-  destruct (bcalc_pos wcw (disp sb) trans x y) as [p|] eqn:Ep; [|cbn [fst]; auto].
+  destruct (bcalc_pos wcw MUtf8 (disp sb) trans x y) as [p|] eqn:Ep; [|cbn [fst]; auto].
   cbn [fst].
   pose proof (OnB_disp sb c t Hc Ht Hm) as Ed.
   assert (Sd: scalars (c ++ t)) by (apply Forall_app; auto).
@@ -551,15 +551,15 @@ Proof.
   eapply (OnB_moved sb _ k' t c); eauto; unfold same_frame; cbn; auto.
 Qed.
 
-Lemma bgcc_state sb w lay : fst (bget_cursor_coords wcw sb w lay) = with_shiftv sb true.
+Lemma bgcc_state sb w lay : fst (bget_cursor_coords wcw MUtf8 sb w lay) = with_shiftv sb true.
 Proof. reflexivity. Qed.
 
 Lemma bgpc_state sb w lay :
-  fst (bget_pref_col wcw sb w lay) = sb \/ fst (bget_pref_col wcw sb w lay) = with_shiftv sb true.
+  fst (bget_pref_col wcw MUtf8 sb w lay) = sb \/ fst (bget_pref_col wcw MUtf8 sb w lay) = with_shiftv sb true.
 Proof.
   unfold bget_pref_col, bget_cursor_coords.
   destruct (pref sb) as [[c w']|]; [destruct (w' =? w); [left; reflexivity|]|];
-    destruct (bposition_coords wcw (with_shiftv sb true) w lay (pos (with_shiftv sb true))) as [[x y]|]; right; reflexivity.
+    destruct (bposition_coords wcw MUtf8 (with_shiftv sb true) w lay (pos (with_shiftv sb true))) as [[x y]|]; right; reflexivity.
 Qed.
 
 Lemma OnB_flags sb s' :
@@ -617,14 +617,14 @@ Lemma same_frame_trans a b c : same_frame a b -> same_frame b c -> same_frame a 
 Proof. unfold same_frame. intuition congruence. Qed.
 
 Lemma bmctc_frame sb w lay x y :
-  same_frame sb (fst (bmove_cursor_to_coords wcw sb w lay x y)) /\
-  text (fst (bmove_cursor_to_coords wcw sb w lay x y)) = text sb.
+  same_frame sb (fst (bmove_cursor_to_coords wcw MUtf8 sb w lay x y)) /\
+  text (fst (bmove_cursor_to_coords wcw MUtf8 sb w lay x y)) = text sb.
 Proof.
   unfold bmove_cursor_to_coords.
-  destruct (bget_line_translation wcw sb w lay) as [trans|]; [|split; [apply same_frame_refl|reflexivity]].
-  destruct (bposition_coords wcw sb w lay 0) as [[tx ty]|]; [|split; [apply same_frame_refl|reflexivity]].
+  destruct (bget_line_translation wcw MUtf8 sb w lay) as [trans|]; [|split; [apply same_frame_refl|reflexivity]].
+  destruct (bposition_coords wcw MUtf8 sb w lay 0) as [[tx ty]|]; [|split; [apply same_frame_refl|reflexivity]].
   destruct ((y <? ty) || (y >=? zlen trans)); [split; [apply same_frame_refl|reflexivity]|].
-  destruct (bcalc_pos wcw (disp sb) trans x y) as [p|]; split; try apply same_frame_refl; try reflexivity.
+  destruct (bcalc_pos wcw MUtf8 (disp sb) trans x y) as [p|]; split; try apply same_frame_refl; try reflexivity.
   unfold same_frame; cbn; auto.
 Qed.
 
@@ -643,21 +643,21 @@ Proof.
     destruct (Width.move_next_char MUtf8 (text sb) (pos sb) (zlen (text sb))); [|apply same_frame_refl].
     unfold same_frame; cbn; auto.
   - unfold bget_cursor_coords.
-    destruct (bposition_coords wcw (with_shiftv sb true) w lay (pos (with_shiftv sb true))) as [[x y]|]; [|unfold same_frame; cbn; auto].
+    destruct (bposition_coords wcw MUtf8 (with_shiftv sb true) w lay (pos (with_shiftv sb true))) as [[x y]|]; [|unfold same_frame; cbn; auto].
     pose proof (bgpc_state (with_shiftv sb true) w lay) as G.
-    destruct (bget_pref_col wcw (with_shiftv sb true) w lay) as [s2 [pc|]]; cbn [fst] in G;
+    destruct (bget_pref_col wcw MUtf8 (with_shiftv sb true) w lay) as [s2 [pc|]]; cbn [fst] in G;
       [|destruct G as [-> | ->]; unfold same_frame; cbn; auto].
     pose proof (bmctc_frame s2 w lay pc (y - 1)) as [F _].
     assert (F0: same_frame sb s2) by (destruct G as [-> | ->]; unfold same_frame; cbn; auto).
-    destruct (bmove_cursor_to_coords wcw s2 w lay pc (y - 1)) as [s3 [[|]|]]; cbn [fst] in *; eapply same_frame_trans; eauto.
+    destruct (bmove_cursor_to_coords wcw MUtf8 s2 w lay pc (y - 1)) as [s3 [[|]|]]; cbn [fst] in *; eapply same_frame_trans; eauto.
   - unfold bget_cursor_coords.
-    destruct (bposition_coords wcw (with_shiftv sb true) w lay (pos (with_shiftv sb true))) as [[x y]|]; [|unfold same_frame; cbn; auto].
+    destruct (bposition_coords wcw MUtf8 (with_shiftv sb true) w lay (pos (with_shiftv sb true))) as [[x y]|]; [|unfold same_frame; cbn; auto].
     pose proof (bgpc_state (with_shiftv sb true) w lay) as G.
-    destruct (bget_pref_col wcw (with_shiftv sb true) w lay) as [s2 [pc|]]; cbn [fst] in G;
+    destruct (bget_pref_col wcw MUtf8 (with_shiftv sb true) w lay) as [s2 [pc|]]; cbn [fst] in G;
       [|destruct G as [-> | ->]; unfold same_frame; cbn; auto].
     pose proof (bmctc_frame s2 w lay pc (y + 1)) as [F _].
     assert (F0: same_frame sb s2) by (destruct G as [-> | ->]; unfold same_frame; cbn; auto).
-    destruct (bmove_cursor_to_coords wcw s2 w lay pc (y + 1)) as [s3 [[|]|]]; cbn [fst] in *; eapply same_frame_trans; eauto.
+    destruct (bmove_cursor_to_coords wcw MUtf8 s2 w lay pc (y + 1)) as [s3 [[|]|]]; cbn [fst] in *; eapply same_frame_trans; eauto.
   - change (pos (with_pref sb None)) with (pos sb). change (text (with_pref sb None)) with (text sb).
     destruct (pos sb =? 0); [unfold same_frame; cbn; auto|].
     destruct (Width.move_prev_char MUtf8 (text sb) 0 (pos sb)); unfold same_frame; cbn; auto.
@@ -665,16 +665,16 @@ Proof.
     destruct (pos sb >=? zlen (text sb)); [unfold same_frame; cbn; auto|].
     destruct (Width.move_next_char MUtf8 (text sb) (pos sb) (zlen (text sb))); unfold same_frame; cbn; auto.
   - unfold bget_cursor_coords.
-    destruct (bposition_coords wcw (with_shiftv (with_pref sb None) true) w lay (pos (with_shiftv (with_pref sb None) true))) as [[x y]|];
+    destruct (bposition_coords wcw MUtf8 (with_shiftv (with_pref sb None) true) w lay (pos (with_shiftv (with_pref sb None) true))) as [[x y]|];
       [|unfold same_frame; cbn; auto].
     pose proof (bmctc_frame (with_shiftv (with_pref sb None) true) w lay PLeft y) as [F _].
-    destruct (bmove_cursor_to_coords wcw (with_shiftv (with_pref sb None) true) w lay PLeft y) as [s3 [b|]]; cbn [fst] in *;
+    destruct (bmove_cursor_to_coords wcw MUtf8 (with_shiftv (with_pref sb None) true) w lay PLeft y) as [s3 [b|]]; cbn [fst] in *;
       (eapply same_frame_trans; [|exact F]); unfold same_frame; cbn; auto.
   - unfold bget_cursor_coords.
-    destruct (bposition_coords wcw (with_shiftv (with_pref sb None) true) w lay (pos (with_shiftv (with_pref sb None) true))) as [[x y]|];
+    destruct (bposition_coords wcw MUtf8 (with_shiftv (with_pref sb None) true) w lay (pos (with_shiftv (with_pref sb None) true))) as [[x y]|];
       [|unfold same_frame; cbn; auto].
     pose proof (bmctc_frame (with_shiftv (with_pref sb None) true) w lay PRight y) as [F _].
-    destruct (bmove_cursor_to_coords wcw (with_shiftv (with_pref sb None) true) w lay PRight y) as [s3 [b|]]; cbn [fst] in *;
+    destruct (bmove_cursor_to_coords wcw MUtf8 (with_shiftv (with_pref sb None) true) w lay PRight y) as [s3 [b|]]; cbn [fst] in *;
       (eapply same_frame_trans; [|exact F]); unfold same_frame; cbn; auto.
 Qed.
 
@@ -716,36 +716,36 @@ Proof.
   destruct k; try contradiction; unfold bget_cursor_coords.
   - (* up *)
     destruct (Flag (with_shiftv sb true)) as [B1 L1]; [unfold same_frame; cbn; auto|reflexivity|reflexivity|].
-    destruct (bposition_coords wcw (with_shiftv sb true) w lay (pos (with_shiftv sb true))) as [[x y]|]; [|exact B1].
+    destruct (bposition_coords wcw MUtf8 (with_shiftv sb true) w lay (pos (with_shiftv sb true))) as [[x y]|]; [|exact B1].
     pose proof (bgpc_state (with_shiftv sb true) w lay) as G.
-    destruct (bget_pref_col wcw (with_shiftv sb true) w lay) as [s2 [pc|]]; cbn [fst] in G.
+    destruct (bget_pref_col wcw MUtf8 (with_shiftv sb true) w lay) as [s2 [pc|]]; cbn [fst] in G.
     + assert (E2: s2 = with_shiftv sb true) by (destruct G as [-> | ->]; reflexivity). subst s2.
       pose proof (bmctc_OnB (with_shiftv sb true) w lay pc (y - 1) B1 L1) as [B3 _].
-      destruct (bmove_cursor_to_coords wcw (with_shiftv sb true) w lay pc (y - 1)) as [s3 [[|]|]]; exact B3.
+      destruct (bmove_cursor_to_coords wcw MUtf8 (with_shiftv sb true) w lay pc (y - 1)) as [s3 [[|]|]]; exact B3.
     + destruct G as [-> | ->]; exact B1.
   - (* down *)
     destruct (Flag (with_shiftv sb true)) as [B1 L1]; [unfold same_frame; cbn; auto|reflexivity|reflexivity|].
-    destruct (bposition_coords wcw (with_shiftv sb true) w lay (pos (with_shiftv sb true))) as [[x y]|]; [|exact B1].
+    destruct (bposition_coords wcw MUtf8 (with_shiftv sb true) w lay (pos (with_shiftv sb true))) as [[x y]|]; [|exact B1].
     pose proof (bgpc_state (with_shiftv sb true) w lay) as G.
-    destruct (bget_pref_col wcw (with_shiftv sb true) w lay) as [s2 [pc|]]; cbn [fst] in G.
+    destruct (bget_pref_col wcw MUtf8 (with_shiftv sb true) w lay) as [s2 [pc|]]; cbn [fst] in G.
     + assert (E2: s2 = with_shiftv sb true) by (destruct G as [-> | ->]; reflexivity). subst s2.
       pose proof (bmctc_OnB (with_shiftv sb true) w lay pc (y + 1) B1 L1) as [B3 _].
-      destruct (bmove_cursor_to_coords wcw (with_shiftv sb true) w lay pc (y + 1)) as [s3 [[|]|]]; exact B3.
+      destruct (bmove_cursor_to_coords wcw MUtf8 (with_shiftv sb true) w lay pc (y + 1)) as [s3 [[|]|]]; exact B3.
     + destruct G as [-> | ->]; exact B1.
   - (* home *)
     destruct (Flag (with_shiftv (with_pref sb None) true)) as [B1 L1]; [unfold same_frame; cbn; auto|reflexivity|reflexivity|].
-    destruct (bposition_coords wcw (with_shiftv (with_pref sb None) true) w lay (pos (with_shiftv (with_pref sb None) true))) as [[x y]|]; [|exact B1].
+    destruct (bposition_coords wcw MUtf8 (with_shiftv (with_pref sb None) true) w lay (pos (with_shiftv (with_pref sb None) true))) as [[x y]|]; [|exact B1].
     pose proof (bmctc_OnB (with_shiftv (with_pref sb None) true) w lay PLeft y B1 L1) as [B3 _].
-    destruct (bmove_cursor_to_coords wcw (with_shiftv (with_pref sb None) true) w lay PLeft y) as [s3 [b|]]; exact B3.
+    destruct (bmove_cursor_to_coords wcw MUtf8 (with_shiftv (with_pref sb None) true) w lay PLeft y) as [s3 [b|]]; exact B3.
   - (* end *)
     destruct (Flag (with_shiftv (with_pref sb None) true)) as [B1 L1]; [unfold same_frame; cbn; auto|reflexivity|reflexivity|].
-    destruct (bposition_coords wcw (with_shiftv (with_pref sb None) true) w lay (pos (with_shiftv (with_pref sb None) true))) as [[x y]|]; [|exact B1].
+    destruct (bposition_coords wcw MUtf8 (with_shiftv (with_pref sb None) true) w lay (pos (with_shiftv (with_pref sb None) true))) as [[x y]|]; [|exact B1].
     pose proof (bmctc_OnB (with_shiftv (with_pref sb None) true) w lay PRight y B1 L1) as [B3 _].
-    destruct (bmove_cursor_to_coords wcw (with_shiftv (with_pref sb None) true) w lay PRight y) as [s3 [b|]]; exact B3.
+    destruct (bmove_cursor_to_coords wcw MUtf8 (with_shiftv (with_pref sb None) true) w lay PRight y) as [s3 [b|]]; exact B3.
 Qed.
 
 Theorem bstep_OnB sb e :
-  OnB sb -> ev_ok sb e -> OnB (fst (fst (bstep wcw sb e))).
+  OnB sb -> ev_ok sb e -> OnB (fst (fst (bstep wcw MUtf8 sb e))).
 Proof.
   intros HB Hok. destruct e as [k w lay|b c rw w lay|f w lay|w lay|p]; cbn [bstep].
   - (* keys *)
@@ -774,22 +774,22 @@ Proof.
   - (* click *)
     cbn [ev_ok] in Hok. destruct (b =? 1); [|exact HB].
     pose proof (bmctc_OnB sb w lay (PInt c) rw HB Hok) as [B _].
-    destruct (bmove_cursor_to_coords wcw sb w lay (PInt c) rw) as [s1 [bb|]]; exact B.
+    destruct (bmove_cursor_to_coords wcw MUtf8 sb w lay (PInt c) rw) as [s1 [bb|]]; exact B.
   - (* render *)
     assert (Fl: forall s', same_frame sb s' -> text s' = text sb -> pos s' = pos sb -> OnB s')
       by (intros; eapply OnB_flags; eauto).
     unfold bget_cursor_coords.
     destruct (match rcache sb with Some (w', f') => (w' =? w) && Bool.eqb f' f | None => false end).
-    + destruct (bget_line_translation wcw (with_shiftv sb f) w lay); [|exact HB].
+    + destruct (bget_line_translation wcw MUtf8 (with_shiftv sb f) w lay); [|exact HB].
       destruct f; [|exact HB].
-      destruct (bposition_coords wcw (with_shiftv (with_shiftv sb true) true) w lay (pos (with_shiftv (with_shiftv sb true) true))) as [[x y]|]; exact HB.
-    + destruct (bget_line_translation wcw (with_shiftv sb f) w lay); [|apply Fl; [unfold same_frame; cbn; auto|reflexivity|reflexivity]].
+      destruct (bposition_coords wcw MUtf8 (with_shiftv (with_shiftv sb true) true) w lay (pos (with_shiftv (with_shiftv sb true) true))) as [[x y]|]; exact HB.
+    + destruct (bget_line_translation wcw MUtf8 (with_shiftv sb f) w lay); [|apply Fl; [unfold same_frame; cbn; auto|reflexivity|reflexivity]].
       destruct f; [|apply Fl; [unfold same_frame; cbn; auto|reflexivity|reflexivity]].
-      destruct (bposition_coords wcw (with_shiftv (with_shiftv sb true) true) w lay (pos (with_shiftv (with_shiftv sb true) true))) as [[x y]|];
+      destruct (bposition_coords wcw MUtf8 (with_shiftv (with_shiftv sb true) true) w lay (pos (with_shiftv (with_shiftv sb true) true))) as [[x y]|];
         apply Fl; try reflexivity; unfold same_frame; cbn; auto.
   - (* get_pref_col *)
     pose proof (bgpc_state sb w lay) as G.
-    destruct (bget_pref_col wcw sb w lay) as [s1 [pc|]]; cbn [fst] in *;
+    destruct (bget_pref_col wcw MUtf8 sb w lay) as [s1 [pc|]]; cbn [fst] in *;
       (destruct G as [-> | ->]; [exact HB|eapply OnB_flags; [exact HB|unfold same_frame; cbn; auto|reflexivity|reflexivity]]).
   - (* set_edit_pos *)
     cbn [ev_ok] in Hok. destruct HB as (c & t & j & Hc & Sc & Ht & St_ & Hj & Hp & Hm).
@@ -801,20 +801,20 @@ Qed.
 Fixpoint evs_ok (sb : st) (es : list event) : Prop :=
   match es with
   | [] => True
-  | e :: r => ev_ok sb e /\ evs_ok (fst (fst (bstep wcw sb e))) r
+  | e :: r => ev_ok sb e /\ evs_ok (fst (fst (bstep wcw MUtf8 sb e))) r
   end.
 
 Theorem brun_OnB es : forall sb,
   OnB sb -> evs_ok sb es ->
-  Forall (fun o => OnB (fst (fst o))) (snd (brun wcw sb es)) /\ OnB (fst (brun wcw sb es)).
+  Forall (fun o => OnB (fst (fst o))) (snd (brun wcw MUtf8 sb es)) /\ OnB (fst (brun wcw MUtf8 sb es)).
 Proof.
   induction es as [|e r IH]; intros sb HB Hok.
   - cbn. auto.
   - cbn [brun]. destruct Hok as [H1 H2].
     pose proof (bstep_OnB sb e HB H1) as B1.
-    destruct (bstep wcw sb e) as [[s1 sg] rt]. cbn [fst] in *.
+    destruct (bstep wcw MUtf8 sb e) as [[s1 sg] rt]. cbn [fst] in *.
     destruct (IH s1 B1 H2) as [A B].
-    destruct (brun wcw s1 r) as [s2 outs]. cbn [fst snd] in *. split; [constructor; assumption|assumption].
+    destruct (brun wcw MUtf8 s1 r) as [s2 outs]. cbn [fst snd] in *. split; [constructor; assumption|assumption].
 Qed.
 
 (* what OnB says in plain terms: the text decodes, and so do both halves around the offset *)
